@@ -793,6 +793,8 @@ func (cr *caseRun) step(st Step) {
 			// the server already closed the connection: the write is lost
 			cr.emit(Ev{Ev: "c", K: "LOST", Res: err.Error()})
 		}
+	case "race":
+		cr.race(st)
 	case "h":
 		cr.hmu.Lock()
 		h := cr.handlers[st.S]
@@ -813,6 +815,53 @@ func (cr *caseRun) step(st Step) {
 		h.cmds <- hcmd{st.Op, st.N}
 	}
 	cr.settle()
+}
+
+// race: a handler Read and a client RST_STREAM for the same stream reach the serve loop at the
+// same time.  The loop is parked (Hold), the handler takes its octets out of the body pipe and
+// blocks handing the body-read note to the loop, the RST_STREAM frame is read by the frame
+// reader and blocks on readFrameCh; then the loop is released and its select decides the order.
+func (cr *caseRun) race(st Step) {
+	cr.hmu.Lock()
+	h := cr.handlers[st.S]
+	cr.hmu.Unlock()
+	if h == nil || atomic.LoadInt32(&h.busy) != hIdle {
+		cr.mobs = append(cr.mobs, MObs{M: true, Cid: cr.c.ID, Step: -cr.stepNo})
+		return
+	}
+	before, _, hasBody := bfe_http2.VerifH2connBodyState(h.r.Body)
+	release, held := cr.vc.Hold()
+	cr.emit(Ev{Ev: "hc", S: int(st.S), Op: "read", N: st.N})
+	atomic.StoreInt32(&h.busy, hRead)
+	h.cmds <- hcmd{"read", st.N}
+	if held && hasBody && before > 0 {
+		want := before - st.N
+		if want < 0 {
+			want = 0
+		}
+		deadline := time.Now().Add(settleTimeout)
+		for {
+			n, _, _ := bfe_http2.VerifH2connBodyState(h.r.Body)
+			if n <= want || time.Now().After(deadline) {
+				break
+			}
+			time.Sleep(20 * time.Microsecond)
+		}
+	}
+	cr.emit(Ev{Ev: "c", K: "RST", S: int(st.S), Code: int(st.Code), IWS: -1, MFS: -1, CL: -1})
+	if err := cr.fr.WriteRSTStream(st.S, http2.ErrCode(st.Code)); err != nil {
+		cr.emit(Ev{Ev: "c", K: "LOST", Res: err.Error()})
+	} else if held {
+		deadline := time.Now().Add(settleTimeout)
+		for {
+			if n, _, _, _ := cr.sv.r.state(); n == 0 || time.Now().After(deadline) {
+				break
+			}
+			time.Sleep(20 * time.Microsecond)
+		}
+		time.Sleep(200 * time.Microsecond) // let the reader reach its send on readFrameCh
+	}
+	release()
 }
 
 func runCase(c *Case) (evs []Ev, mobs []MObs, panicText string) {
